@@ -15,7 +15,7 @@ func init() {
 		Level: "Structural necessary conditions of last-write-wins reads, decided on the named constructs: the in-memory sort is stable with a strict comparison on time only; equal timestamps force the sort+dedup pass; a later row without the field keeps the older value and otherwise replaces (never duplicates); " +
 			"every call of the record-merge primitives passes the newer source as the 'new' argument and the older one as 'old' (frozen role table over all call sites, unclassified sites fail); out-of-order locations are ordered by file sequence (ordered ones by time) and sorted before they are merged; " +
 			"the flush splits rows at 'time ≤ last flushed time → out-of-order' with mutually consistent boundary comparisons and never treats a measurement with ordered files as if nothing had been flushed. " +
-			"NOT decided: that the contents equal the model map for every history (value-level), column-wise replace arithmetic, cursor paging.",
+			"the time bounds of a memtable chunk, which prune time-bounded reads, are maintained for every appended row (late rows included); NOT decided: that the contents equal the model map for every history (value-level), column-wise replace arithmetic, cursor paging.",
 		Assumptions: commonAssumptions,
 		Technique:   "static analysis: predicate truth-table equivalence over normalised comparisons, argument-role tables by canonical definitions, must-precede cuts on go/cfg",
 		Rules:       "C02.R1 R2 R3 R4 R5 R6 R7",
